@@ -76,7 +76,7 @@ func checkC20(c *core.Check) {
 		rounds = nil
 		for _, g := range []int{16, 32, 64} {
 			for _, p := range []int{1, 4, 16} {
-				for rep := 0; rep < 3; rep++ {
+				for rep := 0; rep < 8; rep++ {
 					rounds = append(rounds, struct{ g, procs int }{g, p})
 				}
 			}
